@@ -92,6 +92,7 @@ def run_codec(R, ctx):
     lines = list(core.corpus("codec")) + codec_lines(rng, n)
     obs, crashes, se = core.run_harness_resilient(binary, "codec", lines, timeout=1800)
     d = core.run_driver(obs)
+    core.negative_control(R, obs, "codec", skip=lambda l: " => " not in l or l.endswith("FILTERED"))
     pos = int(d["summary"].get("positive", 0))
     outcomes = collections.Counter(("FILTERED" if l.endswith("=> FILTERED") else l.split()[0]) for l in obs)
     arglens = collections.Counter()
